@@ -171,10 +171,7 @@ fn go<T: Elem + Clone>(ops: &Rows, mon: &mut Mon) -> Rows {
         let mut got = ran.clone();
         want.sort(); got.sort();
         if got != want { mon.fail(format!("op{} destructors ran for {:?}, std::Vec runs them for {:?}", k, got, want)); }
-        // (the destination's own elements of a clone_from are checked above and not part of the row the model predicts)
-        let mut shown = ran.clone();
-        for x in &clone_from_extra { if let Some(p) = shown.iter().position(|y| y == x) { shown.remove(p); } }
-        out.push(shown);
+        out.push(ran);
     }
     checked_drop(v, mon, ops.len());
     out.push(vec![99]);
